@@ -51,6 +51,51 @@ Theorem C16_overwrite_rejects : forall s,
 Proof. exact parse_overwrite_total. Qed.
 Print Assumptions C16_overwrite_rejects.
 
+(** what the specification asks of a decoded Depth / Overwrite text (the verdicts the oracle
+    applies to the implementation's observation): a canonical spelling is read with its value;
+    an ASCII-case variant of one (inside the grammar as RFC 2616 2.1 reads quoted literals,
+    but sent by no encoder here) is read with that value or refused; every other text is
+    refused; never a panic, never another value *)
+Theorem C16_depth_spec_meaning : forall s o,
+  depth_dec_spec_ok s o = true <->
+  match depth_den s, depth_den_ci s with
+  | Some v, _ => o = ObsOk v
+  | None, Some v => o = ObsOk v \/ o = ObsErr
+  | None, None => o = ObsErr
+  end.
+Proof. exact depth_dec_spec_ok_meaning. Qed.
+Print Assumptions C16_depth_spec_meaning.
+
+Theorem C16_overwrite_spec_meaning : forall s o,
+  overwrite_dec_spec_ok s o = true <->
+  match overwrite_den s, overwrite_den_ci s with
+  | Some v, _ => o = ObsOk v
+  | None, Some v => o = ObsOk v \/ o = ObsErr
+  | None, None => o = ObsErr
+  end.
+Proof. exact overwrite_dec_spec_ok_meaning. Qed.
+Print Assumptions C16_overwrite_spec_meaning.
+
+(** the case-insensitive readings: the exact reading of the lower-cased text (Depth); the one
+    letter in either case (Overwrite) *)
+Theorem C16_depth_case_insensitive_reading : forall s, depth_den_ci s = depth_den (lower_ascii s).
+Proof. exact depth_den_ci_spec. Qed.
+Print Assumptions C16_depth_case_insensitive_reading.
+
+Theorem C16_overwrite_case_insensitive_reading : forall s b, overwrite_den_ci s = Some b <->
+  (s = format_overwrite b \/ s = lower_ascii (format_overwrite b)).
+Proof. exact overwrite_den_ci_spec. Qed.
+Print Assumptions C16_overwrite_case_insensitive_reading.
+
+(** the models of the present (case-sensitive) decoders meet the verdicts on every text *)
+Theorem C16_depth_model_meets_spec : forall s, depth_dec_spec_ok s (obs_of (parse_depth s)) = true.
+Proof. exact depth_dec_model_meets_spec. Qed.
+Print Assumptions C16_depth_model_meets_spec.
+
+Theorem C16_overwrite_model_meets_spec : forall s, overwrite_dec_spec_ok s (obs_of (parse_overwrite s)) = true.
+Proof. exact overwrite_dec_model_meets_spec. Qed.
+Print Assumptions C16_overwrite_model_meets_spec.
+
 (** ** Status line *)
 
 (** any three-digit code with any reason phrase (any byte string) is read back
